@@ -101,11 +101,23 @@ check('C12', 'E2-world',
       'DESIGN.md section 7 C12')
 
 
+check('C19', 'E2-world',
+      'Seeded histories of export / overwrite / reload / data update / subset change / by-reference session restart over every exporter whose '
+      'format has a reader (CSV, FITS table, VOTable, HDF5, gridded FITS) on real files, with storage faults on the writer (kernel EFBIG via '
+      'RLIMIT_FSIZE, missing target directory) and on the reader (missing, zero-length, truncated file). Oracle: value round trip with '
+      'dtype-appropriate equality; under faults the exporter raises or the file round-trips, and a damaged file never loads to different '
+      'values silently. Sampling, not proof.',
+      'Third-party writers / readers (astropy, h5py, pandas) run as installed; EFBIG is not used with the HDF5 C library (it does not survive '
+      'failed writes); truncated CSV is excluded (no integrity structure); HDF5 component order is an open finding (order-insensitive compare).',
+      'deterministic simulation: seeded export/reload history + storage fault injection (real kernel faults) + round-trip oracle',
+      'DESIGN.md section 7 C19')
+
+
 def na(pid, reason):
     NA[pid] = dict(property_id=pid, reason=reason)
 
 PENDING = 'check under construction in this build round (see DESIGN.md section 7); not claimed until its oracle is proven sound on the unchanged tree'
-for pid in [ 'C11', 'C14', 'C16', 'C17', 'C18', 'C19']:
+for pid in [ 'C11', 'C14', 'C16', 'C17', 'C18']:
     na(pid, PENDING)
 na('C08', 'pure function of region parameters and points: no schedule, clock, fault, shared state or history for a simulator to vary (DESIGN.md section 8)')
 na('C09', 'pure translation roi -> subset state; nothing stateful or faulty involved (DESIGN.md section 8)')
